@@ -180,6 +180,40 @@ func (C03) Run(tp *tape.Tape) core.Result {
 			goto done
 		}
 		depthsSeen[1] = true
+		if tp.Draw(10) == 9 {
+			// offset sweep, while the stack is still at its first allocation step: the probe is called
+			// on top of padding frames of 2 and 3 slots at every stack offset from 2 to 299, in
+			// ascending order, so that each allocation boundary is crossed for the first time by
+			// every kind of push the probe makes (frame, operand, fork) at some offset
+			for _, d := range []string{
+				"swa = (k) -> if k == 0 {\n" + p0 + "()\n} else {\nswa(k - 1)\n}",
+				"swb = (k, j) -> if j == 0 {\nswa(k)\n} else {\nswb(k, j - 1)\n}",
+				"sweep = (lo, hi) -> {\nbad = []\nfirst = " + p0 + "()\no = lo\nwhile o < hi {\nif o % 2 == 0 {\nv = swb(o / 2, 0)\n} else {\nv = swb((o - 3) / 2, 1)\n}\nif v != first {\nbad = bad + [[o, v]]\n}\no = o + 1\n}\nbad\n}",
+			} {
+				if _, stop := submit(d, 0); stop {
+					goto done
+				}
+			}
+			for _, rg := range [][2]int{{4, 150}, {150, 300}} {
+				o, stop := submit(fmt.Sprintf("write(sweep(%d, %d))", rg[0], rg[1]), 0)
+				if stop {
+					goto done
+				}
+				if o.Kind == sess.KBudget {
+					break
+				}
+				r.Inc("place.offset_sweep", 1)
+				if base.Kind == sess.KValue && (o.Kind != sess.KValue || o.Out != "[]") {
+					r.Violation = &core.Violation{Clause: "placement-differs", Detail: fmt.Sprintf("offset sweep %d..%d: the probe gave %s at depth 1; list of [padding offset, result] that differ: %s\n%s", rg[0], rg[1], base.Brief(), o.Brief(), trunc(o.Report, 400)), History: h}
+					goto done
+				}
+				if base.Kind != sess.KValue && o.Kind != base.Kind {
+					r.Violation = &core.Violation{Clause: "placement-differs", Detail: fmt.Sprintf("offset sweep: the probe ended with %s at depth 1, the sweep with %s", base.Brief(), o.Brief()), History: h}
+					goto done
+				}
+				depthsSeen[100] = true
+			}
+		}
 		np := 2 + tp.Draw(8)
 		for i := 0; i < np; i++ {
 			// optional history statement before the placement
@@ -251,7 +285,7 @@ func (C03) Run(tp *tape.Tape) core.Result {
 				d := c03Depths[tp.Draw(len(c03Depths))]
 				w := 0
 				if tp.Bool() {
-					w = widths[tp.Draw(len(widths))]
+					w = drawWidth(tp)
 				}
 				var defs []string
 				inner := p0 + "()"
